@@ -194,13 +194,10 @@ def r3_errors_reach_watcher(ctx):
         R.fn(b)
         cs = [c for c in b.calls if re.search(calls_pat, c.callee or "") or re.search(calls_pat, c.name() or "")]
         R.floor("C09.R3." + label, len(cs), 1 if label == "stop_subscription" else 5, "awaited transport operations in %s" % label)
+        from .common import awaited_error_leaves_function
         for c in cs:
-            propagated = False
-            for br in b.calls_to(r"Try.*::branch$"):
-                lv = tr.origins(b, br.args[0])
-                if any(l.kind == "call" and l.detail["bb"] == c.bb and l.where == b.path for l in lv):
-                    propagated = True
-            R.check(propagated, "C09.R3", "%s:propagates@%d" % (label, sorted(x.bb for x in cs).index(c.bb)), "the transport result is propagated with `?`", "a transport error in %s is discarded instead of propagated: the failed write is not treated as a connection failure, nothing reaches the watcher and pending calls only end by their timeout" % label, where(c))
+            found, propagated = awaited_error_leaves_function(b, c)
+            R.check(propagated, "C09.R3", "%s:propagates@%d" % (label, sorted(x.bb for x in cs).index(c.bb)), "a transport error leaves the function as an error (`?` or by hand)", "a transport error in %s is discarded instead of propagated: the failed write is not treated as a connection failure, nothing reaches the watcher and pending calls only end by their timeout" % label, where(c))
     stb = F.one(SEND_TASK)
     for c in stb.calls:
         if re.search(r"handle_frontend_messages$", c.name() or "") or re.search(r"TransportSenderT::send_ping$", c.callee or ""):
